@@ -115,11 +115,19 @@ def bfgs_history(rnd, M, tier):
             y = s * rnd.choice([0.5, 1.0, 2.0]) if want_pos else -s * rnd.choice([0.0, 1.0])
             if want_pos and d > 1:
                 y = y + 0.1 * numpy.roll(s, 1)
+            if d >= 2 and rnd.random() < 0.12:
+                # positive curvature but so ill-conditioned that the factorisation of the updated metric fails: the update is refused
+                s = numpy.zeros((d, 1))
+                s[0, 0] = 1.0
+                m = mass.m + s
+                y = numpy.array([[3 * 2.0 ** -12], [2.0 ** 30], [2.0 ** 29]][:d])
             g = mass.g + y
             curv = float((s.T @ y).item()) > 0.0
+            before = mass.Minv.copy()
             with numpy.errstate(all="ignore"):
                 mass.kinetic_energy_gradient(numpy.ones((d, 1)), m, g)
-            ops.append(f"Update {str(curv).lower()} true")
+            applied = not numpy.array_equal(before, mass.Minv)
+            ops.append(f"Update {str(curv).lower()} {str(applied or not curv).lower()}")
         elif x < 0.8:
             mass.accept()
             last_acc = mass.Minv.copy()
@@ -127,7 +135,13 @@ def bfgs_history(rnd, M, tier):
         else:
             mass.reject()
             ops.append("Reject")
-        fac_ok = numpy.allclose(mass.LTinv @ mass.LTinv.T @ mass.Minv, numpy.eye(d), rtol=1e-7, atol=1e-8)
+        # the factor in use is the factor of the metric in use: recomputed the way the class computes it (a residual test
+        # of LTinv LTinv^T Minv = I is meaningless for the ill-conditioned metrics that refused updates come with)
+        try:
+            ref = numpy.linalg.inv(numpy.linalg.cholesky(mass.Minv).transpose())
+            fac_ok = numpy.allclose(mass.LTinv, ref, rtol=1e-9, atol=0.0)
+        except numpy.linalg.LinAlgError:
+            fac_ok = False
         same = numpy.allclose(mass.Minv, last_acc, rtol=1e-12, atol=1e-14)
         obs.append((bool(fac_ok), bool(same) if ops[-1] == "Reject" else True))
         if not fac_ok:
